@@ -78,11 +78,16 @@ Section Sync.
   Definition with_chain_temp (n : node) (c : list id) (t : list (nat * id)) : node :=
     {| chain := c; temp := t; finalized := finalized n; banned := banned n |}.
 
+  (* a temp block at or below the common block's height: re-applying it on top of the common block is rejected by
+     the processor (height not consecutive), whatever the block *)
+  Definition stale (t : list (nat * id)) (hc : nat) : bool := existsb (fun kv => fst kv <=? hc) t.
+
   (* fastSyncer.Sync.  [common]: the peer's getHighestCommonBlock answer; [blocks],[e]: what the downloader delivered
      and how the stream ended; [target_height]: height of the received block that triggered the sync;
-     [rounds2]: 2 * number of validators.  [restore_saves]: the saveTemp flag with which restoreBlocks deletes
-     (true originally, false in the repaired code) *)
-  Definition fast_sync (restore_saves : bool) (n : node) (common : option id) (blocks : list id) (e : ending)
+     [rounds2]: 2 * number of validators.
+     [restore_saves]: the saveTemp flag with which restoreBlocks deletes (true originally, false in the repaired code);
+     [clear_stale]: ClearTempBlocks before the deletions (absent originally, present in the repaired code) *)
+  Definition fast_sync (restore_saves clear_stale : bool) (n : node) (common : option id) (blocks : list id) (e : ending)
              (target_height rounds2 : nat) : node * outcome :=
     match common with
     | None => (ban n, Failed)                                   (* errCommonBlockNotFound: ban *)
@@ -97,14 +102,16 @@ Section Sync.
               | EndErr => (n, Failed)                           (* download error: nothing touched *)
               | EndInvalid => (ban n, Failed)                   (* a block fails Validate: ban, nothing touched *)
               | EndOk =>
-                  let '(n1, ok1) := delete_till n hc true in
+                  let n0 := if clear_stale then clear_temp n else n in
+                  let '(n1, ok1) := delete_till n0 hc true in
                   if negb ok1 then (n1, Failed) else
                   let '(c2, ok) := apply_all (chain n1) blocks in
                   if ok then (clear_temp (with_chain n1 c2), Synced)
                   else
-                    (* restoreBlocks: delete the applied blocks again, then re-apply the temp blocks *)
+                    (* restoreBlocks: delete the applied blocks again, then re-apply ALL temp blocks by height *)
                     let '(n3, ok3) := delete_till (with_chain n1 c2) hc restore_saves in
                     if negb ok3 then (n3, Failed) else
+                    if stale (temp n3) hc then (n3, Failed) else
                     let '(c4, t4, ok') := restore_apply (chain n3) (temp n3) (S hc) (length (temp n3)) in
                     if ok' then (ban (with_chain_temp n3 c4 t4), Failed) else (with_chain_temp n3 c4 t4, Failed)
               end
